@@ -188,7 +188,7 @@ struct Problem {
   double normF = 0.0;
 };
 
-static void build_symm(Problem &p, long n, const std::string &fam, int var, Rng &r) {
+static void build_symm(Problem &p, long n, const std::string &fam, int var, Rng &r, long nstart) {
   MatrixXd a;
   p.famok = true;
   if (fam == "dd") {
@@ -199,6 +199,54 @@ static void build_symm(Problem &p, long n, const std::string &fam, int var, Rng 
     // value can coincide with a diagonal element in floating point); profiles 0/1 only
     a = make_dd(n, var - (var % 3 == 2 ? 1 : 0), r, false, 3e-9 * double(1 + (var / 7) % 30));
     p.famok = dominance_margin(a) > 0.0;
+  } else if (fam == "ddsparse" || fam == "ddshared") {
+    // SPARSE strictly diagonally dominant matrix, well separated diagonal, whose nstart lowest diagonal
+    // states (the unit start vectors of the solver: nstart = size of the initial guess) are NOT coupled
+    // to each other: in iteration 0 every Ritz vector is a unit vector e_j and D_jj - lambda = 0 exactly.
+    // ddsparse, var%3: 0 banded (i <-> i+nstart: decoupled chains, one start state per chain),
+    //   1 purely diagonal, 2 every start state coupled to exactly one higher state OF ITS OWN, rest
+    //   diagonal - the correction vectors of different roots are linearly independent by construction;
+    // ddshared: random sparse, 2 partners per row among the higher states: several start states may
+    //   share their only partners, then their first correction vectors are linearly dependent
+    int kind = fam == "ddshared" ? 3 : var % 3;
+    int sign = (var / 3) % 2;                       // positive / negative diagonal
+    bool shuffle = (var / 6) % 2 == 1;
+    double eps = pick3(0.01, 0.05, 0.2, (var / 12) % 3);
+    VectorXd d = diag_profile(n, (var / 36) % 2, r);
+    if (sign == 1) {
+      VectorXd e(n);
+      for (long i = 0; i < n; ++i) e(i) = -(d(n - 1) + 1.0) + (d(i) - d(0));
+      d = e;
+    }
+    long k = std::max<long>(1, std::min<long>(nstart, n - 1));
+    MatrixXd c = MatrixXd::Zero(n, n);              // indices in diagonal order, 0..k-1 = start states
+    auto put = [&](long i, long j) {
+      if (i == j || (i < k && j < k)) return;
+      double v = r.s();
+      c(i, j) = v;
+      c(j, i) = v;
+    };
+    if (kind == 0) {
+      for (long i = 0; i + k < n; ++i) put(i, i + k);
+    } else if (kind == 3) {
+      for (long i = 0; i < n; ++i)
+        for (int t = 0; t < 2; ++t) put(i, k + r.below(n - k));
+    } else if (kind == 2) {
+      for (long i = 0; i < std::min(k, n - k); ++i) put(i, k + i);
+    }
+    double rowsum = 0;
+    for (long i = 0; i < n; ++i) rowsum = std::max(rowsum, c.row(i).cwiseAbs().sum());
+    double scale = eps;
+    if (rowsum > 0) scale = std::min(scale, 0.45 * d.cwiseAbs().minCoeff() / rowsum);
+    std::vector<long> perm = permutation(n, r, shuffle);
+    a = MatrixXd::Zero(n, n);
+    for (long i = 0; i < n; ++i)
+      for (long j = 0; j < n; ++j) a(perm[i], perm[j]) = (i == j) ? d(i) : scale * c(i, j);
+    bool uncoupled = true;
+    for (long i = 0; i < k; ++i)
+      for (long j = 0; j < k; ++j)
+        if (i != j && a(perm[i], perm[j]) != 0.0) uncoupled = false;
+    p.famok = uncoupled && (kind == 1 ? d.cwiseAbs().minCoeff() > 0.0 : dominance_margin(a) > 0.0);
   } else if (fam == "ddflat") {
     // strictly diagonally dominant, but the diagonal is (nearly) constant: the diagonal
     // preconditioner carries no information
@@ -356,14 +404,14 @@ static void build_ham(Problem &p, long n2, const std::string &fam, int var, Rng 
   p.mu = Eigen::Map<VectorXd>(pos.data(), long(pos.size()));
 }
 
-static Problem build(const std::string &mode, const std::string &fam, long n, int var, std::uint64_t seed) {
+static Problem build(const std::string &mode, const std::string &fam, long n, int var, std::uint64_t seed, long nstart) {
   Problem p;
   p.mode = mode;
   p.fam = fam;
   p.N = n;
   Rng r(seed);
   if (mode == "SYMM")
-    build_symm(p, n, fam, var, r);
+    build_symm(p, n, fam, var, r, nstart);
   else if (mode == "HAM")
     build_ham(p, n, fam, var, r);
   else
@@ -528,8 +576,10 @@ int main() {
       const double tolv = tol_of(tol);
 
       std::string key = mode + "/" + fam + "/" + std::to_string(N) + "/" + std::to_string(var) + "/" + std::to_string(seed);
+      const long nstart = sig > 0 ? sig : 2 * neigen;   // size of the solver's initial guess
+      if (fam == "ddsparse" || fam == "ddshared") key += "/" + std::to_string(nstart);
       if (key != cached_key) {
-        prob = build(mode, fam, N, int(var), seed);
+        prob = build(mode, fam, N, int(var), seed, nstart);
         cached_key = key;
       }
       const Problem &p = prob;
